@@ -48,7 +48,7 @@ def multi(*plans):
 
 KEY_TYPES = ["string", "int", "int8", "int16", "int32", "int64", "uint", "uint8", "uint16", "uint32", "uint64", "uintptr",
              "float32", "float64", "complex64", "complex128", "bool", "*int", "unsafe.Pointer", "chan int", "[0]int", "[4]byte",
-             "[3]string", "struct{}", "padded", "strF", "nested", "ptrF", "ifaceF", "any", "fmt.Stringer"]
+             "[3]string", "struct{}", "padded", "strF", "nested", "ptrF", "ifaceF", "any", "fmt.Stringer", "same-name-local-types"]
 
 
 def keys_jobs(tier, cores):
@@ -100,4 +100,4 @@ PLANS["C09"]["jobs"] = multi(seq_plan((2000, 0), (200000, 0)), simple("linzcache
 PLANS["C09"]["assumptions"] = SEQ_ASSUME + CONC_ASSUME
 PLANS["C12"]["jobs"] = multi(seq_plan((3000, 12), (150000, 300)), simple("seqmap", (800, 0), (50000, 0)), simple("linzmap", (2500, 0), (100000, 0)), simple("linzcache", (1500, 0), (80000, 0)))
 PLANS["C12"]["assumptions"] = SEQ_ASSUME + CONC_ASSUME
-PLANS["C06"]["jobs"] = multi(seq_plan((3000, 0), (100000, 0)), simple("linzcache", (3000, 0), (150000, 0)), simple("janitor", (1, 0), (20, 0), stripes_q=2))
+PLANS["C06"]["jobs"] = multi(seq_plan((3000, 8), (100000, 200)), simple("linzcache", (3000, 0), (150000, 0)), simple("janitor", (1, 0), (20, 0), stripes_q=2), simple("term", (300, 0), (20000, 0), stripes_q=4))
